@@ -214,38 +214,7 @@ def run(ctx):
                    f'{"an exception " + got["raises"] if got.get("raises") else (got.get("method"), got.get("full"))}: the join kind '
                    f'changes and with it the rows returned', file=FILE, line=ps.lineno,
                    witness=f'select * from a {jt.lower()} b on a.x = b.x')
-    # set operations ---------------------------------------------------------------------------------------------------
-    param = pu.args.args[1].arg
-    for (cn, uniq), want in sorted(SETOP_REF.items()):
-        env = {'isinstance': lambda o, t: o == t, param: _Node(cn, uniq), f'{param}.unique': uniq, 'ast.Union': 'Union',
-               'ast.Intersect': 'Intersect', 'ast.Except': 'Except'}
-        got = None
-
-        def ev(e):
-            if isinstance(e, ast.Call) and dotted(e.func) == 'isinstance':
-                ts = e.args[1].elts if isinstance(e.args[1], ast.Tuple) else [e.args[1]]
-                return cn in {(dotted(t) or '').split('.')[-1] for t in ts}
-            if isinstance(e, ast.IfExp):
-                return ev(e.body) if ev(e.test) else ev(e.orelse)
-            if isinstance(e, ast.Attribute) and norm(e) == f'{param}.unique':
-                return uniq
-            if isinstance(e, ast.UnaryOp) and isinstance(e.op, ast.Not):
-                return not ev(e.operand)
-            if isinstance(e, ast.Attribute):
-                return norm(e)
-            return peval.ev(e, env)
-
-        def run_block(stmts):
-            nonlocal got
-            for st in stmts:
-                if isinstance(st, ast.If):
-                    run_block(st.body if ev(st.test) else st.orelse)
-                elif isinstance(st, ast.Assign) and norm(st.targets[0]) == 'func':
-                    got = ev(st.value)
-        run_block(pu.body)
-        ctx.ob('C06.setop', f'{cn}:unique={uniq}', got == want,
-               f'{cn}{"" if uniq else " ALL"} is rendered with {got} instead of {want}: duplicate handling / the set operation changes',
-               file=FILE, line=pu.lineno, witness=f'select 1 {cn.upper()}{"" if uniq else " ALL"} select 2')
+    # set operations: see the interpreted table below (two operands and chains) --------------------------------------------------------------
     clause_table(ctx, cls, ps)
     # nested set operations: the rendered expression must have the structure of the tree (each link keeps its own ALL flag)
     from ..interp import Interp, Obj, Raised, Env
@@ -263,6 +232,8 @@ def run(ctx):
             return n.attrs['_name']
         return (SA[(n.kind, n.unique)], reference(n.left), reference(n.right))
     trees = []
+    for (k1, u1) in sorted(SETOP_REF):
+        trees.append((f'{k1}:unique={u1}', setop(k1, u1, leaf('a'), leaf('b'))))
     for k1, u1, k2, u2 in itertools.product(('Union', 'Intersect', 'Except'), (True, False), ('Union', 'Intersect', 'Except'), (True, False)):
         trees.append((f'(a {k1}{"" if u1 else " ALL"} b) {k2}{"" if u2 else " ALL"} c', setop(k2, u2, setop(k1, u1, leaf('a'), leaf('b')), leaf('c'))))
     trees.append(('a UNION (b UNION ALL c)', setop('Union', True, leaf('a'), setop('Union', False, leaf('b'), leaf('c')))))
@@ -277,67 +248,82 @@ def run(ctx):
                 return it.call_function(pu, [Obj('SqlalchemyRender'), node], {}, Env())
             return node.attrs['_name']
         stubs['self.prepare_select'] = prep_select
-        it = Interp({'Union': set(), 'Intersect': set(), 'Except': set()}, stubs)
+        it = Interp.for_file(ctx.src, FILE, {'Union': set(), 'Intersect': set(), 'Except': set()}, stubs)
         try:
             got = it.call_function(pu, [Obj('SqlalchemyRender'), t], {}, Env())
         except Raised as r:
             got = f'<{r.exc_name}>'
         want = reference(t)
+        if ':unique=' in label:
+            ctx.ob('C06.setop', label, got == want,
+                   f'{t.kind}{"" if t.unique else " ALL"} is rendered with {got} instead of {want}: duplicate handling / the set operation changes',
+                   file=FILE, line=pu.lineno, witness=f'select 1 {t.kind.upper()}{"" if t.unique else " ALL"} select 2')
+            continue
         ctx.ob('C06.setop-structure', label, got == want,
                f'`{label}` is rendered as {got}, the tree says {want}: every link of a chain of set operations keeps its own operator and its own ALL / '
                f'DISTINCT flag and its own grouping', file=FILE, line=pu.lineno, witness='select a from t union select a from u union all select a from v')
-    # order -----------------------------------------------------------------------------------------------------------
-    ob_sites = []
-    for fn in [m for m in cls.body if isinstance(m, ast.FunctionDef)]:
-        for n in ast.walk(fn):
-            if isinstance(n, ast.For) and isinstance(n.target, ast.Name) and any(
-                    isinstance(x, ast.Attribute) and x.attr == 'field' and norm(x.value) == n.target.id for x in ast.walk(n)):
-                ob_sites.append((fn, n))
-    ctx.setcount('order_by_translations', len(ob_sites))
-    ctx.need(ob_sites, 'no order-by translation loop found in the renderer')
-    for fn, loop in ob_sites:
-        v = loop.target.id
-        txt = ' '.join(norm(s) for s in loop.body)
-        for what, needle, call in (('DESC', "'DESC'", '.desc()'), ('ASC', "'ASC'", '.asc()'),
-                                   ('NULLS FIRST', "'NULLS FIRST'", 'nullsfirst'), ('NULLS LAST', "'NULLS LAST'", 'nullslast')):
-            ok = needle in txt and call in txt
-            ctx.ob('C06.order', f'{fn.name}:{what}', ok,
-                   f'{fn.name} translates ordering terms but does not handle {what}: the sort order of the rendered query differs',
-                   file=FILE, line=loop.lineno, witness=f'select sum(a) over (order by b {what.lower()}) from t')
-        # modifiers must be per term: the wrapped column starts from this term's expression on each iteration
-        first = loop.body[0]
-        per_term = isinstance(first, ast.Assign) and 'to_expression' in norm(first.value) and f'{v}.field' in norm(first.value)
-        assigned_in_loop = {t.id for s in ast.walk(loop) if isinstance(s, ast.Assign) for t in s.targets if isinstance(t, ast.Name)}
-        definite = {v}
-        leaked = []
+    # order: the order-by translation is interpreted on lists of terms; each term must get exactly its own direction and position of nulls ------------------
+    class Term:
+        _interp_safe = True
 
-        def definitely_assigned(st):
-            if isinstance(st, ast.Assign):
-                return {t.id for t in st.targets if isinstance(t, ast.Name)}
-            if isinstance(st, ast.If) and st.orelse:
-                a = set.union(set(), *[definitely_assigned(x) for x in st.body])
-                b = set.union(set(), *[definitely_assigned(x) for x in st.orelse])
-                return a & b
-            return set()
-        for st in loop.body:
-            # reads inside this statement of loop-assigned names that no earlier top-level statement of the body has set
-            local = set()
-            for x in sorted((x for x in ast.walk(st) if isinstance(x, ast.Name)), key=lambda x: (x.lineno, x.col_offset)):
-                if isinstance(x.ctx, ast.Store):
-                    if isinstance(st, ast.Assign) and x in st.targets:
-                        continue
-                    local.add(x.id)
-                elif x.id in assigned_in_loop and x.id not in definite and x.id not in local and x.id not in leaked:
-                    leaked.append(x.id)
-            definite |= definitely_assigned(st)
-        ctx.ob('C06.order', f'{fn.name}:per-term', per_term and not leaked,
-               f'{fn.name}: the ordering modifiers are not computed per term (state {leaked} is carried from one ordering term to the '
-               f'next): NULLS FIRST/LAST or DESC of one term is applied to later terms', file=FILE, line=loop.lineno,
-               witness='select * from t order by a nulls last, b, c')
+        def __init__(self, name, mods=()):
+            self.name, self.mods = name, tuple(mods)
+
+        def desc(self):
+            return Term(self.name, self.mods + ('desc',))
+
+        def asc(self):
+            return Term(self.name, self.mods + ('asc',))
+
+        def nullsfirst(self):
+            return Term(self.name, self.mods + ('nullsfirst',))
+
+        def nullslast(self):
+            return Term(self.name, self.mods + ('nullslast',))
+
+        nulls_first, nulls_last = nullsfirst, nullslast
+
+        def sig(self):
+            return (self.name, self.mods)
+    tob = function_named(cls, 'to_order_by')
+    ob_sites = [fn for fn in cls.body if isinstance(fn, ast.FunctionDef) and any(
+        isinstance(x, ast.Attribute) and x.attr in ('direction', 'nulls') for x in ast.walk(fn))]
+    ctx.setcount('order_by_translations', len(ob_sites))
+    ctx.need(ob_sites, 'no order-by translation found in the renderer')
+    DIRS = {'default': (), 'ASC': ('asc',), 'DESC': ('desc',), 'desc': ('desc',), 'asc': ('asc',)}
+    NULLS = {'default': (), 'NULLS FIRST': ('nullsfirst',), 'NULLS LAST': ('nullslast',), 'nulls first': ('nullsfirst',), 'nulls last': ('nullslast',)}
+    lists = [[(d, n)] for d in DIRS for n in NULLS]
+    lists += [[('default', 'NULLS LAST'), ('default', 'default'), ('default', 'default')], [('DESC', 'default'), ('default', 'default'), ('ASC', 'NULLS FIRST')],
+              [('DESC', 'NULLS FIRST'), ('ASC', 'NULLS LAST'), ('default', 'default'), ('DESC', 'default')], []]
+    for fn in ob_sites:
+        for terms in lists:
+            order_by = [Obj('OrderBy', field=Obj('Identifier', parts=[f'c{i}'], alias=None), direction=d, nulls=n) for i, (d, n) in enumerate(terms)]
+            stubs = {'self.to_expression': lambda it, node: Term(node.parts[0]),
+                     'sa.nullsfirst': lambda it, c: c.nullsfirst(), 'sa.nullslast': lambda it, c: c.nullslast(),
+                     'sa.nulls_first': lambda it, c: c.nullsfirst(), 'sa.nulls_last': lambda it, c: c.nullslast(),
+                     'sa.desc': lambda it, c: c.desc(), 'sa.asc': lambda it, c: c.asc()}
+            it = Interp.for_file(ctx.src, FILE, {}, stubs)
+            label = ', '.join(f'c{i}{"" if d == "default" else " " + d}{"" if n == "default" else " " + n}' for i, (d, n) in enumerate(terms)) or '(empty)'
+            if fn is not tob:
+                continue            # a second translation (none today) is compared through the shared rule below
+            try:
+                got = it.call_function(fn, [Obj('SqlalchemyRender'), order_by], {}, Env())
+                got = [g.sig() if isinstance(g, Term) else repr(g) for g in got]
+            except Raised as r:
+                got = f'<{r.exc_name}>'
+            want = [(f'c{i}', DIRS[d] + NULLS[n]) for i, (d, n) in enumerate(terms)]
+            what = 'per-term' if len(terms) > 1 else (terms[0][0] + '/' + terms[0][1] if terms else 'empty')
+            ctx.ob('C06.order', f'{fn.name}:{what}:{label}', got == want,
+                   f'{fn.name} translates ORDER BY {label} to {got}, the tree says {want}: every ordering term keeps its own direction and its own position of '
+                   f'nulls, and nothing is carried from one term to the next', file=FILE, line=fn.lineno,
+                   witness=f'select * from t order by {label.lower()}')
+    ctx.need(tob is not None, 'SqlalchemyRender.to_order_by not found')
+    ctx.ob('C06.order', 'single-order-translation', len(ob_sites) == 1 and ob_sites[0] is tob,
+           f'ordering terms are translated in {[f.name for f in ob_sites]}: a second translation next to to_order_by is not covered by the table above',
+           file=FILE, line=tob.lineno)
     wf_branch = [n for n in ast.walk(te) if isinstance(n, ast.If) and 'ast.WindowFunction' in norm(n.test)]
     ctx.need(wf_branch, 'to_expression: WindowFunction branch not found')
-    uses_shared = any(isinstance(x, ast.Call) and norm(x.func) == 'self.to_order_by' for b in wf_branch[0].body for x in ast.walk(b)) or \
-        any(fn is te for fn, _ in ob_sites)
+    uses_shared = any(isinstance(x, ast.Call) and norm(x.func) == 'self.to_order_by' for b in wf_branch[0].body for x in ast.walk(b))
     ctx.ob('C06.order', 'WindowFunction:uses-order-translation', uses_shared,
            'the WindowFunction branch does not translate its ORDER BY terms with the order-by translation', file=FILE, line=wf_branch[0].lineno)
     # operator table ----------------------------------------------------------------------------------------------------
